@@ -1,5 +1,6 @@
 -- GENERATED: axiom audit for Props/C01*.lean
 import Props.C01
+import Props.C01_attrs
 import Props.C01_ext
 #print axioms SpyneModel.Props.C01.nil_true_is_nil
 #print axioms SpyneModel.Props.C01.nil_false_carries_value
@@ -13,6 +14,14 @@ import Props.C01_ext
 #print axioms SpyneModel.Props.C01.norm_empty_repeated
 #print axioms SpyneModel.Props.C01.norm_nonempty_bytes
 #print axioms SpyneModel.Props.C01.norm_leaf_str
+#print axioms SpyneModel.Props.C01attrs.rtCtxA
+#print axioms SpyneModel.Props.C01attrs.xml_roundtrip_attrs
+#print axioms SpyneModel.Props.C01attrs.children_never_set_modifier_members
+#print axioms SpyneModel.Props.C01attrs.attributes_never_set_other_members
+#print axioms SpyneModel.Props.C01attrs.attribute_member_never_child_element
+#print axioms SpyneModel.Props.C01attrs.nil_element_with_attributes
+#print axioms SpyneModel.Props.C01attrs.attrs_decode_is_decode
+#print axioms SpyneModel.Props.C01attrs.attrs_encode_is_encode
 #print axioms SpyneModel.Props.C01ext.rtCtx
 #print axioms SpyneModel.Props.C01ext.soap_in_headers_reach_function
 #print axioms SpyneModel.Props.C01ext.soap_no_header_is_none
